@@ -3,3 +3,4 @@
 -/
 import D42.Props.C03Sub
 import D42.Props.C08Format
+import D42.Props.ValidatorProg
